@@ -288,3 +288,36 @@ Proof.
   eapply B_step; [eapply (SI_tuple_pos _ _ _ _ 0%nat); reflexivity|].
   eapply B_step; [eapply (SI_dyn _ _ _ _ 1%nat); reflexivity|]. apply B_here.
 Qed.
+
+(* 11. (round 3) An out-of-range integer INPUT at any depth.  Theorems 5 / 5b are about a single
+       parameter and about value trees; here, for the external input: if anywhere below the parameter
+       list (through array elements, tuple positions, object keys) a uint<M>/int<M> component is given an
+       input whose integer (in any representation: text, JSON number, big.Int, sized int, float) is
+       outside the range of M bits, then EncodeABIDataValues and EncodeCallDataValues return no data -
+       whatever the rest of the input is. *)
+Theorem C02_nested_out_of_range_input_rejected :
+  forall (bifs : bytes -> res Z) params input e s m k x z,
+    (e = EInt \/ e = EUInt) -> tc_wf (int_tc e s m k) = true ->
+    below (root_of params) input (int_tc e s m k) x -> int_read bifs x z -> ~ in_range e m z ->
+    (forall r, EncodeABIDataValues bifs params input <> Ok r) /\
+    (forall sel r, EncodeCallDataValues bifs sel params input <> Ok r).
+Proof. exact nested_out_of_range_input_rejected. Qed.
+Print Assumptions C02_nested_out_of_range_input_rejected.
+
+(* (string, uint8[2][]) given {"1": [[1,2],[1,"0x100"]], "0": "x"}: the 256 sits three levels down, behind an object key *)
+Example C02_nested_out_of_range_input_nonvacuous :
+  let u8 := int_tc EUInt (ascii_bytes "8") 8 [] in
+  let one := XJNum (ascii_bytes "1") in
+  let big := XStr (ascii_bytes "0x100") in
+  let params := [TCElem EString [] 0 0 []; TCDynArr (TCFixedArr 2 u8 []) []] in
+  let input := XMap [(ascii_bytes "1", XList [XList [one; one]; XList [one; big]]); (ascii_bytes "0", XStr (ascii_bytes "x"))] in
+  tc_wf u8 = true /\ below (root_of params) input u8 big /\ int_read BigIntegerFromString big 256 /\ ~ in_range EUInt 8 256 /\
+  is_err (EncodeABIDataValues BigIntegerFromString params input) = true /\
+  is_ok (EncodeABIDataValues BigIntegerFromString params
+           (XMap [(ascii_bytes "1", XList [XList [one; one]; XList [one; XStr (ascii_bytes "0xff")]]); (ascii_bytes "0", XStr (ascii_bytes "x"))])) = true.
+Proof.
+  cbv zeta. split; [vm_compute; reflexivity|]. split; [|split; [vm_compute; reflexivity|split; [unfold in_range, two; simpl; lia|split; vm_compute; reflexivity]]].
+  eapply B_step; [eapply (SI_tuple_key _ _ _ 1%nat); [reflexivity|vm_compute; reflexivity]|].
+  eapply B_step; [eapply (SI_dyn _ _ _ _ 1%nat); reflexivity|].
+  eapply B_step; [eapply (SI_fixed _ _ _ _ _ 1%nat); reflexivity|]. apply B_here.
+Qed.
